@@ -55,6 +55,9 @@ func scopeEntities(a *egAlt, out *[]*egPart) {
 type c16Gen struct {
 	t *rapid.T
 	c *c16Case
+	// markers: this grammar gets state markers and only end-of-rule actions (the compiler
+	// rejects mid-rule actions in rules with state markers)
+	markers bool
 }
 
 // refsFor draws references for a command that sees `visible` by name (entity indices) and all
@@ -117,11 +120,15 @@ func (e *c16Gen) scope(a *egAlt, top bool) {
 		var parts []*egPart
 		lastCmd := true // no command in front of the first part
 		for _, p := range a.Parts {
-			if !lastCmd && rapid.IntRange(0, 4).Draw(e.t, "cmd") == 0 {
+			if !lastCmd && !e.markers && rapid.IntRange(0, 4).Draw(e.t, "cmd") == 0 {
 				id := e.newAct(e.refsFor(ents, local, seen, false, uniqueNT))
 				parts = append(parts, &egPart{K: "cmd", Sym: id})
 			}
 			lastCmd = false
+			if !nested && e.markers && rapid.IntRange(0, 5).Draw(e.t, "marker") == 0 {
+				// a state marker: present in the rule, absent from the parser stack
+				parts = append(parts, &egPart{K: "mark", Sym: rapid.IntRange(0, 2).Draw(e.t, "markerID")})
+			}
 			parts = append(parts, p)
 			switch p.K {
 			case "t", "n", "set":
@@ -163,7 +170,7 @@ func c16GenCase(t *rapid.T) c16Case {
 		Seed:  rapid.IntRange(0, 1<<30).Draw(t, "seed"),
 	}
 	c.G.Inputs = c.G.Inputs[:1]
-	e := &c16Gen{t: t, c: &c}
+	e := &c16Gen{t: t, c: &c, markers: rapid.IntRange(0, 3).Draw(t, "markers") == 0}
 	for _, nt := range c.G.NTs {
 		nt.Node = ""
 		for _, a := range nt.Alts {
@@ -334,6 +341,8 @@ func newC16Scope(n *dNode) *c16Scope {
 				if k.sub != nil {
 					walk(k.sub)
 				}
+			case "mark":
+				// state markers take no stack slot
 			default:
 				flat = append(flat, k)
 			}
